@@ -457,3 +457,115 @@ def fold_tables_repo(repo, mentioned: frozenset) -> int:
         if isinstance(f, FuncInfo) and f.outer is None:
             n += fold_tables_function(f, mentioned)
     return n
+
+
+# --------------------------------------------------------------------------- C7: loops over literal names
+def unroll_name_loops_function(fn) -> int:
+    """C7: ``for name in ("a", "b", ..): <body using name>`` with a literal tuple / list of strings
+    (no else, no break / continue, the variable not re-bound) is replaced by one copy of the body per
+    entry with the entry substituted; ``getattr(o, "a")`` becomes ``o.a`` and ``setattr(o, "a", v)``
+    ``o.a = v``.  Same statements in the same order - value-preserving."""
+    from .astutil import clone
+
+    changed = 0
+
+    class Sub(ast.NodeTransformer):
+        def __init__(self, var, value):
+            self.var, self.value = var, value
+
+        def visit_Name(self, n):
+            if n.id == self.var and isinstance(n.ctx, ast.Load):
+                return ast.copy_location(ast.Constant(value=self.value), n)
+            return n
+
+    class Fold(ast.NodeTransformer):
+        def visit_Call(self, n):
+            self.generic_visit(n)
+            if isinstance(n.func, ast.Name) and n.func.id == "getattr" and len(n.args) == 2 and not n.keywords and isinstance(n.args[1], ast.Constant) and isinstance(n.args[1].value, str) and n.args[1].value.isidentifier():
+                return ast.copy_location(ast.Attribute(value=n.args[0], attr=n.args[1].value, ctx=ast.Load()), n)
+            return n
+
+        def visit_JoinedStr(self, n):
+            self.generic_visit(n)
+            parts = []
+            for v in n.values:
+                if isinstance(v, ast.Constant) and isinstance(v.value, str):
+                    parts.append(v.value)
+                elif isinstance(v, ast.FormattedValue) and isinstance(v.value, ast.Constant) and isinstance(v.value.value, str) and v.conversion == -1 and v.format_spec is None:
+                    parts.append(v.value.value)
+                else:
+                    return n
+            return ast.copy_location(ast.Constant(value="".join(parts)), n)
+
+        def visit_Expr(self, n):
+            self.generic_visit(n)
+            c = n.value
+            if isinstance(c, ast.Call) and isinstance(c.func, ast.Name) and c.func.id == "setattr" and len(c.args) == 3 and not c.keywords and isinstance(c.args[1], ast.Constant) and isinstance(c.args[1].value, str) and c.args[1].value.isidentifier():
+                return ast.copy_location(ast.Assign(targets=[ast.Attribute(value=c.args[0], attr=c.args[1].value, ctx=ast.Store())], value=c.args[2]), n)
+            return n
+
+    def eligible(st) -> bool:
+        if not isinstance(st, ast.For) or st.orelse or not isinstance(st.target, ast.Name):
+            return False
+        it = st.iter
+        if not isinstance(it, (ast.Tuple, ast.List)) or not (1 <= len(it.elts) <= 12) or not all(isinstance(e, ast.Constant) and isinstance(e.value, str) for e in it.elts):
+            return False
+        if len(st.body) > 8:
+            return False
+        for n in ast.walk(ast.Module(body=st.body, type_ignores=[])):
+            if isinstance(n, (ast.Break, ast.Continue, ast.Return, ast.Yield, ast.YieldFrom, ast.FunctionDef, ast.Lambda, ast.ClassDef)):
+                return False
+            if isinstance(n, ast.Name) and n.id == st.target.id and isinstance(n.ctx, (ast.Store, ast.Del)):
+                return False
+        return True
+
+    def rewrite(stmts):
+        nonlocal changed
+        out = []
+        for st in stmts:
+            if not isinstance(st, (ast.FunctionDef, ast.AsyncFunctionDef, ast.ClassDef)):
+                for fld, lst in list(_blocks(st)):
+                    setattr(st, fld, rewrite(lst))
+                if isinstance(st, ast.Try):
+                    for h in st.handlers:
+                        h.body = rewrite(h.body)
+            if eligible(st):
+                # the variable must not be read after the loop
+                for e in st.iter.elts:
+                    for b in st.body:
+                        c = Fold().visit(Sub(st.target.id, e.value).visit(clone(b)))
+                        out.append(ast.copy_location(c, b))
+                changed += 1
+                continue
+            out.append(st)
+        return out
+
+    # names read after their loop would change meaning: only unroll when the loop variable is not used outside loops over it
+    loop_vars = {st.target.id for st in ast.walk(fn) if isinstance(st, ast.For) and isinstance(st.target, ast.Name)}
+    outside = set()
+    for v in loop_vars:
+        inside_ids = {id(n) for st in ast.walk(fn) if isinstance(st, ast.For) and isinstance(st.target, ast.Name) and st.target.id == v for n in ast.walk(st)}
+        decl_only = {id(st.target) for st in ast.walk(fn) if isinstance(st, ast.AnnAssign) and st.value is None and isinstance(st.target, ast.Name)}
+        if any(isinstance(n, ast.Name) and n.id == v and id(n) not in inside_ids and id(n) not in decl_only for n in ast.walk(fn)):
+            outside.add(v)
+    if outside:
+        _el = eligible
+
+        def eligible(st, _el=_el):  # noqa: F811
+            return _el(st) and st.target.id not in outside
+
+    fn.body = rewrite(fn.body)
+    if changed:
+        ast.fix_missing_locations(fn)
+        par = getattr(fn, "_parent", None)
+        set_parents(fn)
+        fn._parent = par
+    return changed
+
+
+def unroll_name_loops_repo(repo) -> int:
+    n = 0
+    for f in list(repo.funcs.values()):
+        if isinstance(f, FuncInfo) and f.outer is None:
+            n += unroll_name_loops_function(f.node)
+    return n
